@@ -120,4 +120,14 @@ PROPS = {
         "assumptions": [],
         "explanation": "lexer theorems (text scanning vs the reference scanner, tag-free identity, string literals) + exhaustive short strings and random interleavings compared with the concatenation of texts and values",
     },
+    "C09": {
+        "level": "proof", "cone": ["model/Ctx.v", "model/Eval.v", "proofs/CtxProofs.v", "proofs/EvalProofs.v", "props/C09.v"],
+        "trusted_base": COMMON_TB + ["model/Eval.v + model/Ctx.v transcribe the evaluator's scope handling (c.ctx swapping with deferred restore, New(), the data copy in for / index-callee / chained calls, BlockWith, contentFor closures, partial) ; tied to the code by the render correspondence"], "assumptions": ["helpers in a body do not write to outer context handles they were given (true of all shipped helpers)"],
+        "explanation": "frame theorems on the model (bindings of pre-existing contexts unchanged by Set on a fresh child, cur restored) + generated scope nestings judged against an environment-chain reference",
+    },
+    "C16": {
+        "level": "proof", "cone": ["model/Eval.v", "proofs/EvalProofs.v", "props/C16.v"],
+        "trusted_base": COMMON_TB + ["model/Eval.v + model/Ctx.v transcribe the evaluator's scope handling (c.ctx swapping with deferred restore, New(), the data copy in for / index-callee / chained calls, BlockWith, contentFor closures, partial) ; tied to the code by the render correspondence"], "assumptions": ["return inside a for body ends the iteration, not the function (established by the existing tests); the property's quantifier has no loops in function bodies"],
+        "explanation": "theorems about user_call on the model (arguments evaluated in the caller scope, fresh scope, unwrapped return value) + generated decision-chain functions judged against a Go reference",
+    },
 }
